@@ -5,7 +5,7 @@
    guard drops, Arc handles. [nR], [nU], [nW] count the read / upgradable / write guards alive. *)
 From AL Require Import Base Api Mutex RwLock RwApi RwInv.
 From AL.Tie Require Tie_Mutex Tie_Raw Tie_RwLock Tie_RwFutures.
-From AL.Sched Require RwSched.
+From AL.Sched Require RwSched RwHbSched RwHbOrd.
 
 Theorem C02_excl_hist : forall ops : list rop,
   N.of_nat (length ops) < OPS_BOUND ->
@@ -47,6 +47,37 @@ Example C02_nonvacuous :
   nR x = 3 /\ nU x = 0 /\ nW x = 0 /\ nH x = 1 /\ sw1 (r_sh x) = 7 /\ sw0 (r_sh x) = 1.
 Proof. vm_compute. repeat split. Qed.
 
+(* ---------- the two happens-before clauses, for every schedule ---------- *)
+(* Sched/RwHbSched.v runs the machine of C02_excl_sched with release/acquire views on the state word (the operational
+   semantics of MutexSched.v): dropping a write guard (write_unlock, both downgrades) issues a WRITE ticket into the
+   dropper's view before its releasing operation, dropping a read or upgradable-read guard issues a READ ticket; a ticket
+   stands for everything the thread did to the value under that guard. Which sites acquire / release is read from
+   Gen/Sites.v ([gen_rwflags]; premise rw_ord_premises: every site that hands out a guard acquires, every site that
+   gives one up releases).
+   For ANY number of threads and EVERY schedule: every thread that holds a guard of any kind has every write ticket
+   issued so far in its view (all accesses under a write guard happen-before every later guard's accesses), and the
+   thread that holds the write guard has every read ticket in its view (all reads under read and upgradable-read guards
+   happen-before the next writer's writes). *)
+Theorem C02_hb_view : forall (n : nat) (sched : list (nat * RwSched.raction)),
+  let h := RwHbSched.hrun RwHbSched.gen_rwflags n sched in
+  forall i t v, nth_error (RwSched.rg_thr (RwHbSched.h_g h)) i = Some t -> nth_error (RwHbSched.h_tv h) i = Some v ->
+    (RwHbSched.holds t = true -> incl (RwHbSched.h_wt h) v) /\ (RwSched.rt_w t = true -> incl (RwHbSched.h_rt h) v).
+Proof.
+  intros n sched h. destruct (RwHbSched.hrun_Hb RwHbSched.gen_rwflags n sched RwHbOrd.rw_ord_premises) as ((_ & _ & H & _) & _). exact H.
+Qed.
+(* and the roles of that machine are those of C02_excl_sched *)
+Theorem C02_hb_roles : forall (n : nat) (sched : list (nat * RwSched.raction)),
+  RwSched.RExcl (RwHbSched.h_g (RwHbSched.hrun RwHbSched.gen_rwflags n sched)).
+Proof. intros n sched. apply (RwHbSched.hrun_Hb RwHbSched.gen_rwflags n sched RwHbOrd.rw_ord_premises). Qed.
+(* teeth: with write_unlock's fetch_and not a release a reader obtains a guard without the writer's ticket; with
+   try_write's compare_exchange not an acquire a writer obtains the guard without a reader's ticket *)
+Example C02_hb_teeth :
+  RwHbSched.hb_okb (RwHbSched.hrun (RwHbSched.mkRwF true true true true true true true false true true) 2 (nth 0 RwHbSched.candidates [])) = false /\
+  RwHbSched.hb_okb (RwHbSched.hrun (RwHbSched.mkRwF true true false true true true true true true true) 2 (nth 6 RwHbSched.candidates [])) = false.
+Proof. split; [exact RwHbSched.rw_hb_teeth_release | exact RwHbSched.rw_hb_teeth_acquire]. Qed.
+
 Print Assumptions C02_excl_hist.
 Print Assumptions C02_excl_sched.
 Print Assumptions C02_state_counts_guards.
+Print Assumptions C02_hb_view.
+Print Assumptions C02_hb_roles.
